@@ -295,7 +295,8 @@ func (m *Model) deleteMode(id string, opts ...resource.WriteOption) error {
 		return err
 	}
 	if msg == nil {
-		return ErrModeNotFound
+		// no error and nothing deleted: the mode is absent and the caller allowed that (resource.WithAllowMissing)
+		return nil
 	}
 
 	return nil
